@@ -27,7 +27,7 @@ theorem SoundS.assign {ts ts' vs vs'} (iht : SoundTs Q cx D ts ts') (ihv : Sound
   exact RRel.ok (A := ACtlS D) (((he.mono h1).mono h2).mono h3) h
 
 theorem oldVal_rel {N : NumOps} {call : CallFn N} {ρ : ExtOracle N} {k : Nat} {env env' : Env N} {β : Inj N}
-    (hp : POK Q cx call ρ) (he : EnvOK β D env env') {tg tg' : Target N} (ht : TgRel β tg tg')
+    (hp : POK Q cx call ρ k) (he : EnvOK β D env env') {tg tg' : Target N} (ht : TgRel β tg tg')
     {s s' : State N} (h : SRel Q cx β s s') : TargetOK D tg →
     RRel Q cx β AV (match (generalizing := false) tg with
         | .var n => (Res.ok (lookupVar env n s) s : Res N (Val N))
@@ -71,7 +71,7 @@ theorem SoundS.doBlock {b b' D'} (ih : SoundB Q cx D b b' D') : SoundS Q cx D (.
 open Heap (addSelf)
 
 theorem function_tail {N : NumOps} {call : CallFn N} {ρ : ExtOracle N} {k : Nat} {env env' : Env N} {β : Inj N}
-    (hp : POK Q cx call ρ) (he : EnvOK β D env env') {σ σ' : State N} (hs : SRel Q cx β σ σ')
+    (hp : POK Q cx call ρ k) (he : EnvOK β D env env') {σ σ' : State N} (hs : SRel Q cx β σ σ')
     (name : List String) (m : Option String) (F F' : FnBody) (hF : Q D F F') :
     (∀ r, name.head? = some r → DName.ref r ∉ D) →
     RRel Q cx β (ACtlS D)
@@ -144,7 +144,7 @@ theorem SoundS.gfor {ns ns' vs vs' b b' D'} (hn : ns.map TName.name = ns'.map TN
   · exact h
 
 theorem nfor_tail {N : NumOps} {call : CallFn N} {ρ : ExtOracle N} {k : Nat} {env env' : Env N} {β : Inj N}
-    (hp : POK Q cx call ρ) (he : EnvOK β D env env')
+    (hp : POK Q cx call ρ k) (he : EnvOK β D env env')
     {n n' : TName} {body body' : Block} {D' : List DName} (hn : n.name = n'.name) (ihbody : SoundB Q cx D body body' D')
     {a a' b b' c c' : List (Val N)} (ha : VsRel β a a') (hb : VsRel β b b') (hc : VsRel β c c')
     {σ σ' : State N} (h : SRel Q cx β σ σ') :
